@@ -286,6 +286,21 @@ class ModelCacheMixin:
 
         return results
 
+    def _models_evaluate(self, e) -> bool:
+        """
+        Can every cached model be asked for the value of `e`?  A lookup skips a model under which `e` divides by zero
+        (the solver defines that quotient, the concrete evaluation refuses it), so the cached models do not stand for
+        every value of such an expression and it must not be marked as exhausted.
+        """
+        for m in self._models:
+            try:
+                m.eval_ast(e)
+            except ZeroDivisionError:
+                return False
+            except KeyError:
+                continue
+        return True
+
     def _get_solutions(self, e, n=None, extra_constraints=(), allow_unconstrained=True):
         return tuple(
             v[0]
@@ -335,7 +350,7 @@ class ModelCacheMixin:
             for e in asts:
                 # only mark an AST as eval-exhausted if e.variables is a subset of variables that the current solver
                 # knows about (from its constraints)
-                if self.variables.issuperset(e.variables):
+                if self.variables.issuperset(e.variables) and self._models_evaluate(e):
                     self._eval_exhausted[e.hash()] = e
 
         return results
@@ -373,7 +388,7 @@ class ModelCacheMixin:
         # the answer.)
         models_cover_e = self.variables.issuperset(e.variables)
         m = super().min(e, extra_constraints=extra_constraints, signed=signed, exact=exact)
-        if len(extra_constraints) == 0 and models_cover_e:
+        if len(extra_constraints) == 0 and models_cover_e and self._models_evaluate(e):
             (self._min_signed_exhausted if signed else self._min_exhausted)[e.hash()] = e
         return m
 
@@ -396,7 +411,7 @@ class ModelCacheMixin:
 
         models_cover_e = self.variables.issuperset(e.variables)
         m = super().max(e, extra_constraints=extra_constraints, signed=signed, exact=exact)
-        if len(extra_constraints) == 0 and models_cover_e:
+        if len(extra_constraints) == 0 and models_cover_e and self._models_evaluate(e):
             (self._max_signed_exhausted if signed else self._max_exhausted)[e.hash()] = e
         return m
 
